@@ -53,7 +53,10 @@ echo "end $GROG_TARGET" >> "$VTRACE"`})
 	return s
 }
 
-func c18Signals(c *Ctx) {
+func c18Signals(c *Ctx) { signalEnumeration(c, true) }
+
+// signalEnumeration: withSelfSignal adds the scenarios in which the running command interrupts grog.
+func signalEnumeration(c *Ctx, withSelfSignal bool) {
 	grog, err := vc.BuildGrog("grog", nil)
 	if err != nil {
 		c.R.BrokenCheck("%v", err)
@@ -218,6 +221,9 @@ func c18Signals(c *Ctx) {
 	}
 	wg.Wait()
 
+	if !withSelfSignal {
+		return
+	}
 	// a signal while a command is running (the command interrupts grog itself)
 	for _, sig := range []string{"INT", "TERM"} {
 		for _, trap := range []bool{false, true} {
